@@ -56,6 +56,20 @@ def main(argv=None):
         _evidence_fail(pid, a.tier, seed, t0, f"UNDECIDED at build: {e}")
         return F.EXIT_UNDECIDED
     jobs = plan["jobs"]
+    if a.tier == "thorough":
+        # thorough tier: every obligation is decided a second time by an independent SAT back end (CaDiCaL next to
+        # MiniSat); a disagreement between the two shows up as a job that fails/passes only under one of them
+        import copy
+        extra = []
+        for j in jobs:
+            if any(x.startswith("--sat-solver") or x in ("--cvc5", "--z3") for x in j.cbmc_args):
+                continue
+            k = copy.copy(j)
+            k.name = j.name + "@cadical"
+            k.cbmc_args = list(j.cbmc_args) + ["--sat-solver", "cadical"]
+            k.note = (j.note + "; " if j.note else "") + "second back end (cadical)"
+            extra.append(k)
+        jobs = jobs + extra
     if a.only:
         jobs = [j for j in jobs if re.search(a.only, j.name)]
     results = F.run_jobs(jobs, work, a.jobs)
